@@ -36,6 +36,7 @@ type T struct {
 	id     int
 	lo, hi int64 // interval (SInt only)
 	inf    bool  // real term that may carry the +-Inf sentinel
+	rlo, rhi float64 // interval (SReal only; +-Inf = unknown)
 	fl     uint8 // support: 1 = depends on a map-order pick / RNG variable, 2 = depends on a harness input
 }
 
@@ -79,7 +80,10 @@ func mk(op string, sort Sort, name string, k int64, a ...*T) *T {
 		return t
 	}
 	nterms++
-	t := &T{op: op, a: a, k: k, name: name, sort: sort, id: nterms, lo: NEG, hi: POS}
+	t := &T{op: op, a: a, k: k, name: name, sort: sort, id: nterms, lo: NEG, hi: POS, rlo: math.Inf(-1), rhi: math.Inf(1)}
+	if sort == SReal {
+		realInterval(t)
+	}
 	for _, x := range a {
 		if x.inf {
 			t.inf = true
@@ -113,8 +117,43 @@ func R(r *big.Rat) *T {
 	t := mk("const", SReal, r.RatString(), 0)
 	if t.r == nil {
 		t.r = new(big.Rat).Set(r)
+		f, _ := r.Float64()
+		t.rlo, t.rhi = f, f
 	}
 	return t
+}
+
+// realInterval derives a (conservative, outward-rounded by 1e-9 relative) interval for linear real terms.
+func realInterval(t *T) {
+	w := func(lo, hi float64) {
+		pad := 1e-9 * (math.Abs(lo) + math.Abs(hi) + 1)
+		t.rlo, t.rhi = lo-pad, hi+pad
+	}
+	switch t.op {
+	case "to_real":
+		if t.a[0].lo > NEG && t.a[0].hi < POS {
+			t.rlo, t.rhi = float64(t.a[0].lo), float64(t.a[0].hi)
+		}
+	case "+":
+		w(t.a[0].rlo+t.a[1].rlo, t.a[0].rhi+t.a[1].rhi)
+	case "-":
+		if len(t.a) == 1 {
+			t.rlo, t.rhi = -t.a[0].rhi, -t.a[0].rlo
+		} else {
+			w(t.a[0].rlo-t.a[1].rhi, t.a[0].rhi-t.a[1].rlo)
+		}
+	case "ite":
+		t.rlo, t.rhi = math.Min(t.a[1].rlo, t.a[2].rlo), math.Max(t.a[1].rhi, t.a[2].rhi)
+	case "*":
+		x, y := t.a[0], t.a[1]
+		if !math.IsInf(x.rlo, 0) && !math.IsInf(x.rhi, 0) && !math.IsInf(y.rlo, 0) && !math.IsInf(y.rhi, 0) {
+			c := []float64{x.rlo * y.rlo, x.rlo * y.rhi, x.rhi * y.rlo, x.rhi * y.rhi}
+			w(math.Min(math.Min(c[0], c[1]), math.Min(c[2], c[3])), math.Max(math.Max(c[0], c[1]), math.Max(c[2], c[3])))
+		}
+	}
+	if math.IsNaN(t.rlo) || math.IsNaN(t.rhi) {
+		t.rlo, t.rhi = math.Inf(-1), math.Inf(1)
+	}
 }
 func RF(f float64) *T {
 	r := new(big.Rat)
@@ -487,6 +526,14 @@ func lt0(x, y *T) *T {
 			}
 		}
 	}
+	if x.sort == SReal {
+		if x.rhi < y.rlo {
+			return TT
+		}
+		if x.rlo > y.rhi {
+			return FF
+		}
+	}
 	if isC(y) && x.op == "ite" && (isC(x.a[1]) || isC(x.a[2])) {
 		return Ite(x.a[0], Lt(x.a[1], y), Lt(x.a[2], y))
 	}
@@ -849,6 +896,9 @@ func Floor(x *T) *T {
 		return x.a[0]
 	}
 	t := mk("to_int", SInt, "", 0, x)
+	if x.rlo > -1e15 && x.rhi < 1e15 {
+		t.lo, t.hi = int64(math.Floor(x.rlo)), int64(math.Floor(x.rhi))
+	}
 	return t
 }
 
